@@ -1474,7 +1474,7 @@ def build_plan(seed, tier):
 
     # E/F/G. setters called directly: singles, every ordered pair within a family, pairs across families
     r = rng.sub("setters")
-    ctx_pairs = (small_ctx + [seeded[1], "SWT"]) if thorough else [seeded[0], "WOR"]
+    ctx_pairs = small_ctx if thorough else [seeded[0], "WOR"]
     for iso3 in ctx_pairs:
         sc = scale_of(iso3)
         valid = [s for s in SETTERS if sc in s["scales"]]
